@@ -1,3 +1,4 @@
+pub mod utils;
 use std::ops::{Div, Sub};
 
 #[derive(Clone, Copy, PartialEq)]
